@@ -92,7 +92,7 @@ Definition fx_rc (f : bool) : rcall :=
 Definition fx_fcase (kind : nat) obs lg fins fzs fin fe : fcase :=
   {| f_t := fx_tcase obs lg fin fe; f_kind := kind; f_size_fault := false; f_data_fault := false;
      f_fin_ops := fins; f_fz_ops := fzs; f_closed_ops := [true; true]; f_others := []; f_fin_caller := 1;
-     f_fin_faults := []; f_gc_raised := 0; f_caller_raised := false |}.
+     f_fin_faults := []; f_gc_raised := 0; f_caller_raised := false; f_nested := [] |}.
 Definition fx_good_obs : list (out * Z) := [(OErr (ERender 1), 2); (OErr EFinalized, 2)].
 
 Example fx_oracle_discriminates :
@@ -115,7 +115,7 @@ Definition fx_rcase obs fins fzs fin fe caller craised : fcase :=
                t_obs := obs; t_tells := [0; 0; 0; 0; 0]; t_log := [fx_rc false]; t_fin := fin; t_finalized_end := fe |};
      f_kind := 0; f_size_fault := false; f_data_fault := false;
      f_fin_ops := fins; f_fz_ops := fzs; f_closed_ops := [false; true; true; true; true]; f_others := [];
-     f_fin_caller := caller; f_fin_faults := [0%nat]; f_gc_raised := 0; f_caller_raised := craised |}.
+     f_fin_caller := caller; f_fin_faults := [0%nat]; f_gc_raised := 0; f_caller_raised := craised; f_nested := [] |}.
 Definition fx_frame0 : out :=
   OFrame {| f_number := 0; f_duration := 7; f_size := (2, 1); f_output := [0; 0; 2; 1; 7; 1; -1; -1]; f_pad := None |}.
 Definition fx_robs : list (out * Z) := [(fx_frame0, 2); (fin_err, 2); (OStop, 2); (OErr EFinalized, 2); (OOk, 2)].
